@@ -34,6 +34,10 @@ func init() {
 		return in.callFn(unix, []Value{sec, ns}, nil)
 	})
 	reg("time.Sleep", func(in *Interp, fn *ssa.Function, a []Value) (Value, *iPanic) { return nil, nil })
+	// runtime clock used by package time itself (zone cache initialisation): a concrete instant
+	reg("time.now", func(in *Interp, fn *ssa.Function, a []Value) (Value, *iPanic) {
+		return Tuple{in.B.Int64(1600000000), in.B.Int64(0), in.B.Int64(0)}, nil
+	})
 	reg("time.Since", func(in *Interp, fn *ssa.Function, a []Value) (Value, *iPanic) {
 		return in.freshVar("since", sym.SInt, big.NewInt(0), big.NewInt(1<<40)), nil
 	})
